@@ -601,6 +601,14 @@ class Emit:
                     # a boolean flag local (`first = True` … `first = False`): remembered as a fact for the tests that read it
                     acc = [x for x in acc if not (x[0] == "cond" and x[1] == st.targets[0].id)] + [("cond", st.targets[0].id, st.value.value)]
                     continue
+                txt = norm_stmt(st)
+                if txt.startswith("self.cleanup_statements.append("):
+                    acc = [x for x in acc if not (x[0] == "cond" and x[1] == "self.cleanup_statements")] + \
+                        [("stack", "push"), ("cond", "self.cleanup_statements", True)]
+                    continue
+                if txt == "self.cleanup_statements.pop()":
+                    acc = [x for x in acc if not (x[0] == "cond" and x[1] == "self.cleanup_statements")] + [("stack", "pop")]
+                    continue
                 acc = acc + events_of_expr(st)
             out.append(acc + [("exit", "end")])
 
@@ -783,6 +791,19 @@ def rule_t3(chk: Check, C: Classes):
                 chk.fail(R, f"{key}:{k}", where, msg)
             if not bad:
                 chk.ok(R, key, where)
+            # clean-up statements: pushed and popped on every path, and no `return` printed directly while one is registered
+            chk.count(R)
+            why = ""
+            for p in ps:
+                depth = 0
+                for x in p:
+                    if x[0] == "stack":
+                        depth += 1 if x[1] == "push" else -1
+                    elif x[0] == "print" and x[1].startswith("return") and depth > 0:
+                        why = "a `return` is printed directly while a clean-up statement is registered (it is skipped in the generated method)"
+                if depth != 0:
+                    why = why or "a path registers a clean-up statement and leaves without removing it: it is then emitted in every later rule"
+            chk.require(not why, R, f"{key}:cleanup-balance", where, why)
         # ---------------------------------------------------------------- visit_Rhs: alternatives in order, all of them
         r = C.resolve(g, "visit_Rhs")
         if r is not None:
